@@ -11,22 +11,37 @@ SPEC = {
     ],
     "rule": ("rapid-generated response histories of in-process targets: any status, empty and 3 MB bodies, malformed status line / header "
              "line / chunking, binary garbage, early close, TCP reset, stall past the response timeout, body shorter than Content-Length, "
-             "JSON/HTML the extractors cannot parse, header values shorter than the configured substr(); every history ends with a "
+             "JSON/HTML the extractors cannot parse, header values (0-20 characters) shorter than the configured substr(), whose one or two "
+             "indices are generated: small or beyond the value, counted from the start or (negative) from the end; every history ends with a "
              "well-behaved exchange. Guns: http (1-3 instances, keep-alive on/off), http/scenario with steps carrying each postprocessor "
              "kind (var/jsonpath, var/xpath, var/header with and without substr, assert/response), grpc and grpc/scenario (any status code, "
-             "stall past the timeout, 200k-item responses, assert/response). Pools are built by config.DecodeAndValidate, run by the real "
+             "stall past the timeout, 200k-item responses, assert/response), http2 (1-3 instances, keep-alive on/off, shared client on/off) "
+             "and http2/scenario against an in-process TLS target that negotiates h2 and whose script fails individual TLS handshakes "
+             "(alerts internal_error / unrecognized_name / protocol_version, or a dropped connection) and answers individual requests "
+             "badly (any status, empty / 3 MB body, stream reset before or after the headers, connection killed, stall, body shorter than "
+             "Content-Length); one http2 case in twelve meets a TLS target without h2 (the documented fatal condition: the run may stop, "
+             "but only with that message). Pools are built by config.DecodeAndValidate, run by the real "
              "engine, samples read from the real phout output. Non-trivial = at least one misbehaving exchange followed by a good one; "
              "distinct = hash of the case."),
     "floors": {"TestScenarioGun/post_header_substr": 0.15, "TestScenarioGun/post_jsonpath": 0.15, "TestScenarioGun/post_xpath": 0.15,
                "TestScenarioGun/post_assert": 0.15, "TestHTTPGun/mis_reset": 0.05, "TestHTTPGun/mis_bad_chunk": 0.05,
-               "TestHTTPGun/mis_huge": 0.05, "TestHTTPGun/mis_stall": 0.05, "TestGRPCGuns/grpc_scenario_gun": 0.3},
+               "TestHTTPGun/mis_huge": 0.05, "TestHTTPGun/mis_stall": 0.05, "TestGRPCGuns/grpc_scenario_gun": 0.3,
+               "TestScenarioGun/substr_negative_index": 0.08, "TestScenarioGun/substr_negative_index_beyond_value": 0.03,
+               "TestHTTP2Gun/hs_internal_error": 0.04, "TestHTTP2Gun/hs_unrecognized_name": 0.04, "TestHTTP2Gun/hs_protocol_version": 0.04,
+               "TestHTTP2Gun/hs_close": 0.04, "TestHTTP2Gun/h2_good_after_tls_alert": 0.15, "TestHTTP2Gun/h2_shared_client": 0.15,
+               "TestHTTP2Gun/h2_mis_kill_conn": 0.03, "TestHTTP2Gun/h2_mis_abort": 0.05, "TestHTTP2Gun/target_without_h2": 0.03,
+               "TestHTTP2ScenarioGun/h2_good_after_tls_alert": 0.2, "TestHTTP2ScenarioGun/hs_internal_error": 0.08,
+               "TestHTTP2ScenarioGun/post_header_substr": 0.1},
     "manifest": {
         "technique": "fault-injection property testing (rapid): generated misbehaving response histories against the real guns and engine",
         "text": ("Whatever the generated history, Engine.Run must return nil (no 'shoot panic', no component error), every attempted "
                  "request / executed scenario step must leave exactly one sample carrying the status or a failure, and exchanges that were "
                  "answered properly - in particular those after a misbehaving one - must have a clean 200 sample."),
-        "note": ("The connect gun is not exercised (no CONNECT-capable target in the harness) and the http2 guns' documented fatal "
-                 "condition is not asserted. Scenario invocations are told apart at the target by counting first-step requests with one "
+        "note": ("Against a TLS target without h2 the http2 gun may stop the run (documented); it is only asserted that a stop then carries "
+                 "the documented 'target doesn't support HTTP/2' message and that every other stop is a violation. For http2/scenario one "
+                 "instance shoots with keep-alives off, so the k-th TLS handshake seen by the target is the k-th attempted step and must be "
+                 "the k-th sample. With a shared client and several instances connection-level faults are not generated (a killed "
+                 "connection would take other instances' requests along). Scenario invocations are told apart at the target by counting first-step requests with one "
                  "instance and keep-alives off (Go's transport then never retries silently)."),
     },
     "assumptions": ["a step whose response an extractor cannot digest may count as failed or not; only survival, sample accounting and the good exchanges are asserted"],
